@@ -2,10 +2,25 @@
 
 package object
 
-// Contracts for package object (checked by /verif/govc). Comment-only except for proof harnesses.
+// Contracts for package object, checked by /verif/govc (see /verif/DESIGN.md).
+// Comment-only except for the proof harnesses at the end.
 
 //@ spec inrange(i, n) = -n <= i && i < n
 //@ spec norm(i, n) = ite(i >= 0, i, i + n)
+
+// ---- assumed helper contracts (bodies loop over variadic arguments / call fmt) -------------------
+
+//@ func Errorf
+//@ trusted
+//@ modifies nothing
+//@ ensures result != nil && fresh(result)
+
+//@ func TypeErrorf
+//@ trusted
+//@ modifies nothing
+//@ ensures result != nil && fresh(result)
+
+// ---- index arithmetic (bit-exact) --------------------------------------------------------------
 
 //@ func ResolveIndex
 //@ props C16
@@ -14,3 +29,146 @@ package object
 //@ ensures[C16.idx.ok]  err == nil ==> 0 <= result && result < size
 //@ ensures[C16.idx.val] err == nil ==> result == norm(idx, size)
 //@ ensures[C16.idx.err] err != nil <==> !inrange(idx, size)
+
+// ---- lists ---------------------------------------------------------------------------------------
+
+//@ func (*List).Pop
+//@ props C16
+//@ requires ls != nil
+//@ modifies ls.items, elems(ls.items)
+//@ let n = old(len(ls.items))
+//@ let i = norm(index, n)
+//@ ensures[C16.pop.len]    inrange(index, n) ==> len(ls.items) == n-1
+//@ ensures[C16.pop.res]    inrange(index, n) ==> result == old(ls.items[i])
+//@ ensures[C16.pop.prefix] inrange(index, n) ==> forall(k, 0, i, ls.items[k] == old(ls.items[k]))
+//@ ensures[C16.pop.suffix] inrange(index, n) ==> forall(k, i, n-1, ls.items[k] == old(ls.items[k+1]))
+//@ ensures[C16.pop.err]    !inrange(index, n) ==> ls.items == old(ls.items) && typeof(result) == *Error
+
+//@ spec EQ(a, b) = uf("EQ", bool, a, b)
+
+//@ func Equals
+//@ trusted
+//@ modifies nothing
+//@ ensures result == EQ(a, b)
+
+//@ func (*List).Append
+//@ props C16
+//@ overflow
+//@ requires ls != nil
+//@ modifies ls.items, elems(ls.items)
+//@ let n = old(len(ls.items))
+//@ ensures[C16.append.len]  len(ls.items) == n+1
+//@ ensures[C16.append.keep] forall(k, 0, n, ls.items[k] == old(ls.items[k]))
+//@ ensures[C16.append.last] ls.items[n] == obj
+
+//@ func (*List).Extend
+//@ props C16
+//@ requires ls != nil && other != nil
+//@ modifies ls.items, elems(ls.items)
+//@ let n = old(len(ls.items))
+//@ let m = old(len(other.items))
+//@ ensures[C16.extend.len]  len(ls.items) == n+m
+//@ ensures[C16.extend.keep] forall(k, 0, n, ls.items[k] == old(ls.items[k]))
+//@ ensures[C16.extend.tail] forall(k, 0, m, ls.items[n+k] == old(other.items[k]))
+
+//@ func (*List).Clear
+//@ props C16
+//@ requires ls != nil
+//@ modifies ls.items
+//@ ensures[C16.clear] len(ls.items) == 0
+
+//@ func (*List).Insert
+//@ props C16
+//@ requires ls != nil
+//@ modifies ls.items, elems(ls.items)
+//@ let n = old(len(ls.items))
+//@ let j = ite(index < 0, ite(index + n < 0, 0, index + n), ite(index > n, n, index))
+//@ ensures[C16.insert.len]    len(ls.items) == n+1
+//@ ensures[C16.insert.prefix] forall(k, 0, j, ls.items[k] == old(ls.items[k]))
+//@ ensures[C16.insert.at]     ls.items[j] == obj
+//@ ensures[C16.insert.suffix] forall(k, j+1, n+1, ls.items[k] == old(ls.items[k-1]))
+
+//@ func (*List).Copy
+//@ props C16
+//@ requires ls != nil
+//@ modifies nothing
+//@ ensures[C16.copy.fresh] fresh(result) && fresh(result.items) && arr(result.items) != arr(ls.items)
+//@ ensures[C16.copy.len]   len(result.items) == len(ls.items)
+//@ ensures[C16.copy.elems] forall(k, 0, len(ls.items), result.items[k] == ls.items[k])
+
+//@ func (*List).Reverse
+//@ props C16
+//@ requires ls != nil
+//@ modifies elems(ls.items)
+//@ let n = len(ls.items)
+//@ invariant 1: 0 <= i && j == n-1-i && i <= j+1
+//@ invariant 1: forall(k, 0, n, ls.items[k] == ite(k < i || k > j, old(ls.items[n-1-k]), old(ls.items[k])))
+//@ ensures[C16.reverse] forall(k, 0, n, ls.items[k] == old(ls.items[n-1-k]))
+//@ ensures[C16.reverse.hdr] ls.items == old(ls.items)
+
+//@ func (*List).GetItem
+//@ props C16
+//@ requires ls != nil
+//@ modifies nothing
+//@ let n = len(ls.items)
+//@ let isInt = typeof(key) == *Int
+//@ let ix = key.(*Int).value
+//@ ensures[C16.getitem.ok]  isInt && inrange(ix, n) ==> result1 == nil && result0 == ls.items[norm(ix, n)]
+//@ ensures[C16.getitem.err] !(isInt && inrange(ix, n)) ==> result1 != nil && result0 == nil
+
+//@ func (*List).SetItem
+//@ props C16
+//@ requires ls != nil
+//@ modifies elems(ls.items)
+//@ let n = len(ls.items)
+//@ let isInt = typeof(key) == *Int
+//@ let ix = key.(*Int).value
+//@ ensures[C16.setitem.ok]   isInt && inrange(ix, n) ==> result == nil && ls.items[norm(ix, n)] == value
+//@ ensures[C16.setitem.rest] isInt && inrange(ix, n) ==> forall(k, 0, n, k != norm(ix, n) ==> ls.items[k] == old(ls.items[k]))
+//@ ensures[C16.setitem.err]  !(isInt && inrange(ix, n)) ==> result != nil && forall(k, 0, n, ls.items[k] == old(ls.items[k]))
+
+//@ func (*List).DelItem
+//@ props C16
+//@ requires ls != nil
+//@ modifies ls.items, elems(ls.items)
+//@ let n = old(len(ls.items))
+//@ let isInt = typeof(key) == *Int
+//@ let ix = key.(*Int).value
+//@ let i = norm(ix, n)
+//@ ensures[C16.delitem.len]    isInt && inrange(ix, n) ==> result == nil && len(ls.items) == n-1
+//@ ensures[C16.delitem.prefix] isInt && inrange(ix, n) ==> forall(k, 0, i, ls.items[k] == old(ls.items[k]))
+//@ ensures[C16.delitem.suffix] isInt && inrange(ix, n) ==> forall(k, i, n-1, ls.items[k] == old(ls.items[k+1]))
+//@ ensures[C16.delitem.err]    !(isInt && inrange(ix, n)) ==> result != nil && ls.items == old(ls.items)
+
+//@ func (*List).Index
+//@ props C16
+//@ requires ls != nil
+//@ modifies nothing
+//@ let n = len(ls.items)
+//@ invariant 1: forall(q, 0, iter, !EQ(obj, ls.items[q]))
+//@ ensures[C16.index.found] result >= 0 ==> result < n && EQ(obj, ls.items[result]) && forall(q, 0, result, !EQ(obj, ls.items[q]))
+//@ ensures[C16.index.none]  result < 0 ==> result == -1 && forall(q, 0, n, !EQ(obj, ls.items[q]))
+
+//@ func (*List).Contains
+//@ props C16 C15
+//@ requires ls != nil
+//@ modifies nothing
+//@ let n = len(ls.items)
+//@ invariant 1: forall(q, 0, iter, !EQ(ls.items[q], item))
+//@ ensures[C15.contains.yes] result == True ==> exists(q, 0, n, EQ(ls.items[q], item))
+//@ ensures[C15.contains.no]  result == False ==> forall(q, 0, n, !EQ(ls.items[q], item))
+//@ ensures[C15.contains.bool] result == True || result == False
+
+// ---- pure interface methods (assumed: every implementation only reads) -----------------------------
+
+//@ func (Object).Type
+//@ trusted
+//@ modifies nothing
+
+//@ func (Object).Inspect
+//@ trusted
+//@ modifies nothing
+
+// ---- package state established by the initialisers (init-only, see C09) -----------------------------
+
+//@ global True != nil && False != nil && Nil != nil && True != False && True.value && !False.value
